@@ -33,6 +33,17 @@ def describe(v):
     return {"k": "obj", "cls": type(v).__name__}
 
 
+def canon_nums(toks):
+    """non-integer numeric literals by VALUE (101.50, 1.015e2 and 101.5 are one literal): the property is about the value an engine reads"""
+    for t in toks:
+        if t["t"] == "num" and any(ch in t["v"] for ch in ".eE"):
+            try:
+                t["v"] = repr(float(t["v"]))
+            except ValueError:
+                pass
+    return toks
+
+
 def marked_values(hist):
     """payloads of the (pairwise distinct) values the program put in: none of them may remain as a literal in the parameterised text"""
     out = []
@@ -44,7 +55,7 @@ def marked_values(hist):
             elif x.get("k") == "str" and x["n"].startswith("s1"):
                 out.append(x["n"])
             elif x.get("k") == "flt":
-                out.append(x["n"])
+                out.append(repr(float(x["n"])))
             if x.get("k") == "vext":
                 pass  # (its constants are walked below like any other value record)
             if x.get("m") in ("limit", "offset"):
@@ -146,7 +157,7 @@ def run(tier: str) -> int:
                     continue
                 if not inline:
                     continue
-                events.append({"tid": len(events), "d": d, "inline": lexer.slim(lexer.lex(inline, ld)), "param": lexer.slim(lexer.lex(param, ld)),
+                events.append({"tid": len(events), "d": d, "inline": canon_nums(lexer.slim(lexer.lex(inline, ld))), "param": canon_nums(lexer.slim(lexer.lex(param, ld))),
                                "vals": [describe(v) for v in vals], "marked": marked_values(h["hist"])})
                 meta.append((d, h, pos, inline, param, vals))
                 if d == "sqlite":
